@@ -106,6 +106,7 @@ class MetaSys(System):
         ops += [('update_empty',)]
         for k in keys + ['zz']:
             ops += [('pop', k), ('popdef', k), ('del', k)]
+        ops += [('popsame', 'a'), ('popsame', 'b')]
         ops += [('popitem',), ('bad', 'a', 'object'), ('bad', 'zz', 'set'), ('reopen',)]
         return ops, 0
 
@@ -150,6 +151,12 @@ class MetaSys(System):
             call = lambda: md.pop(op[1], 'dflt')
             want = roundtrip(m[op[1]]) if op[1] in m else 'dflt'
             retcheck = lambda r: jeq(r, want)
+            new.pop(op[1], None)
+        elif kind == 'popsame':
+            # default equal to (for None/bool/small ints: identical with) the stored value
+            dflt = roundtrip(m[op[1]]) if op[1] in m else None
+            call = lambda: md.pop(op[1], dflt)
+            retcheck = lambda r: jeq(r, dflt)
             new.pop(op[1], None)
         elif kind == 'del':
             call = lambda: md.__delitem__(op[1])
